@@ -377,6 +377,11 @@ func altScalar(rt *rapid.T, n *ttlvref.Node, enc string, notes *[]string) (strin
 				return q(fmt.Sprintf("0x%016X", uint64(sec))), true
 			}
 			*notes = append(*notes, "date-year-boundary")
+			if rapid.Bool().Draw(rt, "boundaryzone") {
+				// the local time of a year boundary with a zone offset that puts the instant on the other side of it
+				return q(rapid.SampledFrom([]string{"9999-12-31T23:59:59-01:00", "9999-12-31T23:59:59-00:01", "9999-12-31T10:00:00-14:00", "9999-12-31T23:59:59+00:00",
+					"0001-01-01T00:00:00+01:00", "0001-01-01T00:00:00+14:00", "0001-01-01T00:00:00-01:00", "9999-12-31T23:59:59.999999999-00:01"}).Draw(rt, "zonedboundary")), true
+			}
 			return q(time.Unix(sec, 0).UTC().Format(time.RFC3339)), true
 		case 0:
 			return q(t.In(time.FixedZone("", 2*3600+1800)).Format(time.RFC3339)), true
@@ -507,6 +512,14 @@ func drawC18(rt *rapid.T) (c18Case, []string) {
 				tree = &ttlvref.Node{Tag: 0x420078, Type: ttlvref.Structure, Kids: []*ttlvref.Node{tree}}
 			}
 			notes = append(notes, inflate(rt, tree)...)
+		}
+		if rapid.IntRange(0, 7).Draw(rt, "deep") == 0 {
+			// one generic input in eight is deeply nested (vendor content may be): 20..40, 100 or 300 levels
+			levels := rapid.SampledFrom([]int{20, 31, 32, 33, 34, 40, 100, 300}).Draw(rt, "levels")
+			for i := 0; i < levels; i++ {
+				tree = &ttlvref.Node{Tag: 0x540100 + i%7, Type: ttlvref.Structure, Kids: []*ttlvref.Node{tree}}
+			}
+			notes = append(notes, fmt.Sprintf("nested-%d-levels", levels))
 		}
 		if enc != "binary" && rapid.Bool().Draw(rt, "registered") {
 			// registered enumeration / mask tags so that names can be used
